@@ -22,7 +22,7 @@ func init() {
 	register(&Check{
 		ID:    "C15",
 		Level: "model_checking",
-		Rule: "from 6 states (fresh, after traffic, send-paused, burn-paused, no attesters, single attester) every transaction type is executed in its success path and in every failure branch (menu of ~130 requests incl. dependency faults and malformed submitters), " +
+		Rule: "from 6 states (fresh, after traffic, send-paused, burn-paused, no attesters, single attester; additionally from every state one (quick) / two (thorough) successful transactions away from those) every transaction type is executed in its success path and in every failure branch (menu of ~130 requests incl. dependency faults and malformed submitters), " +
 			"and all 19 queries + export are called; per call: the raw Set/Delete log of the store service handed to the keeper is classified with the repository's own key-prefix constants and must stay inside the documented classes/cardinality, " +
 			"the typed diff (public view before/after) must equal exactly the entry the transaction names, the raw committed diff must have the same size as the typed diff, failed transactions / queries / export must leave the raw dump unchanged and issue no write at all (queries); " +
 			"path census: every error-return site of keeper/msg_server_*.go (read from the current source) must be observed, known-unreachable sites are listed; distinct_nontrivial = distinct (state, request, outcome) triples",
@@ -40,11 +40,15 @@ func init() {
 
 var c15States = []string{"fresh", "after-traffic", "send-paused", "burn-paused", "no-attesters", "single-attester"}
 
+const c15Shards = 3
+
 func c15Jobs(tier string) []Job {
 	var jobs []Job
 	for _, s := range c15States {
-		s := s
-		jobs = append(jobs, Job{Name: "write-sets @" + s, Run: func(r *Run) { c15Run(r, s) }})
+		for sh := 0; sh < c15Shards; sh++ {
+			s, sh := s, sh
+			jobs = append(jobs, Job{Name: fmt.Sprintf("write-sets @%s shard%d", s, sh), Run: func(r *Run) { c15Run(r, s, sh) }})
+		}
 	}
 	return jobs
 }
@@ -336,11 +340,57 @@ func c15Build(r *Run, state string) *c15Setup {
 	return &c15Setup{scn: scn, pre: pre, w: w, base: base, baseHash: baseHash, view: view, menu: menu}
 }
 
-func c15Run(r *Run, state string) {
+func c15Run(r *Run, state string, shard int) {
 	su := c15Build(r, state)
-	scn, pre, w, base, baseHash, view, menu := su.scn, su.pre, su.w, su.base, su.baseHash, su.view, su.menu
-	r.States++
 	observed := map[string]any{}
+	if shard == 0 {
+		c15From(r, su, state, su.pre, su.base, observed)
+	}
+	// non-initial states: the whole menu again from every state one (quick) or two (thorough)
+	// successful transactions away; the first transaction is sharded over jobs
+	depth := 1
+	if r.Tier == "thorough" {
+		depth = 2
+	}
+	seen := map[string]bool{su.baseHash: true}
+	var expand func(label string, pre []Action, base []byte, d int)
+	expand = func(label string, pre []Action, base []byte, d int) {
+		for i, a := range su.menu {
+			if d == depth && i%c15Shards != shard {
+				continue
+			}
+			if r.Expired() {
+				r.Truncate("C15 deadline in expansion @" + state)
+				return
+			}
+			su.w.Load(base)
+			if o := su.w.Apply(a); !o.OK {
+				continue
+			}
+			nd := su.w.Dump()
+			h := HashBytes(nd)
+			if seen[h] {
+				continue
+			}
+			seen[h] = true
+			np := append(append([]Action{}, pre...), a)
+			c15From(r, su, label+" + "+a.Desc, np, nd, observed)
+			if d > 1 {
+				expand(label+" + "+a.Desc, np, nd, d-1)
+			}
+		}
+	}
+	expand(state, su.pre, su.base, depth)
+	r.Extra["observed_errors"] = observed
+}
+
+// c15From runs the whole menu, and all queries, from one start state.
+func c15From(r *Run, su *c15Setup, state string, pre []Action, base []byte, observed map[string]any) {
+	scn, w, menu := su.scn, su.w, su.menu
+	baseHash := HashBytes(base)
+	w.Load(base)
+	view := ViewOf(w)
+	r.States++
 	for _, a := range menu {
 		w.Load(base)
 		p := Predict(w, view, a)
@@ -414,8 +464,6 @@ func c15Run(r *Run, state string) {
 			r.Sample("write-set", map[string]any{"state": state, "tx": a.Desc, "raw_ops": ws})
 		}
 	}
-	r.Extra["observed_errors"] = observed
-
 	// ---- queries and export: no write at all
 	w.Load(base)
 	pr := &query.PageRequest{Limit: 2, CountTotal: true}
